@@ -222,12 +222,14 @@ func (e *c35Env) stop(timers []*time.Timer) {
 
 func c35States() []c35State {
 	ms := time.Millisecond
-	taus := []time.Duration{1 * ms, 49 * ms, 51 * ms, 151 * ms, 349 * ms, 499 * ms, 501 * ms, 651 * ms,
-		relocationHandoffWindow - ms, relocationHandoffWindow + ms}
+	// tau never coincides with a retry instant (50,150,350,650,950,... ms), a caller deadline or the end of
+	// the window: the outcome of two timers firing at the same virtual instant would depend on their order
+	taus := []time.Duration{2 * ms, 49 * ms, 51 * ms, 151 * ms, 349 * ms, 499 * ms, 501 * ms, 651 * ms,
+		relocationHandoffWindow - 2*ms, relocationHandoffWindow + 2*ms}
 	lats := []time.Duration{0, -1}
 	if vsched.Rep().Thorough() {
-		taus = []time.Duration{1 * ms, 49 * ms, 51 * ms, 149 * ms, 151 * ms, 349 * ms, 351 * ms, 499 * ms, 501 * ms, 649 * ms, 651 * ms,
-			949 * ms, 951 * ms, relocationHandoffWindow - ms, relocationHandoffWindow + ms}
+		taus = []time.Duration{2 * ms, 49 * ms, 51 * ms, 149 * ms, 151 * ms, 349 * ms, 351 * ms, 499 * ms, 501 * ms, 649 * ms, 651 * ms,
+			949 * ms, 951 * ms, relocationHandoffWindow - 2*ms, relocationHandoffWindow + 2*ms}
 		lats = []time.Duration{0, 100 * ms, -1}
 	}
 	type mark struct {
@@ -299,7 +301,7 @@ func TestVerifC35(t *testing.T) {
 				for _, a := range st.script {
 					probes = append(probes, a.at+ms)
 				}
-				probes = append(probes, relocationHandoffWindow+2*ms)
+				probes = append(probes, relocationHandoffWindow+5*ms)
 				for _, at := range probes {
 					if d := at - time.Since(env.t0); d > 0 {
 						time.Sleep(d)
